@@ -8,6 +8,7 @@ EXTENDS MetricsDefs
 CONSTANTS MaxLen, Vals
 VARIABLES in, out, pc
 vars == <<in, out, pc>>
+GateClasses == {"none", "low", "mid", "high", "eqown"}
 ValsQuick == {-1, 0, 2, 3}
 ValsThorough == {-2, -1, 0, 1, 2, 3}
 Cell == {[f |-> TRUE, v |-> x] : x \in Vals} \cup {[f |-> FALSE, v |-> 0]}
@@ -16,7 +17,7 @@ Init ==
           /\ Len(SelectSeq([i \in 1..n |-> <<o[i], q[i]>>], LAMBDA t : t[1].f /\ t[2].f)) >= 2
           /\ Cardinality({i \in 1..n : ~o[i].f \/ ~q[i].f}) <= 1
           /\ in = [kind |-> "stats", obs |-> o, pred |-> q, p |-> p, long |-> FALSE]
-     \/ \E cv \in {"none", "below", "equal", "above"}, pn \in {"none", "below", "equal", "above"} : in = [kind |-> "gate", cv |-> cv, pn |-> pn]
+     \/ \E cv \in GateClasses, pn \in GateClasses : in = [kind |-> "gate", cv |-> cv, pn |-> pn]
      \/ \E f \in {"hourly", "daily", "billing"}, nm \in {"good", "other", "poor"} : in = [kind |-> "stored", fam |-> f, name |-> nm]
   /\ out = [res |-> "pending"] /\ pc = "call"
 Call == pc = "call" /\ out' = [res |-> "modelled"] /\ pc' = "done" /\ UNCHANGED in
@@ -31,5 +32,5 @@ Identities == (pc = "done" /\ in.kind = "stats") =>
   /\ (~e.rho2.u => Le(e.rho2.v, R(1)))
   /\ Le(Sq(e.mbe.v), e.rmse2.v)                      \* bias^2 <= mse
   /\ Le(Sq(e.mae.v), e.rmse2.v)                      \* mae <= rmse
-GateTable == \A cv, pn \in {"none", "below", "equal", "above"} : HourlyPoor(cv, pn) <=> (cv # "below" /\ pn # "below")
+GateTable == \A cv, pn \in GateClasses : HourlyPoor(cv, pn) <=> (cv # "low" /\ pn \notin {"low", "mid"})
 =============================================================================
